@@ -108,3 +108,15 @@ Example C06_ex :
           OutRetrieved (Some (WData (Enc 1 (iso_iv Device 1) (PResponse {| rs_status := 0; rs_docs := []; rs_doc_errors := 0 |}))));
           OutReq RoDecryptionError].
 Proof. vm_compute. reflexivity. Qed.
+
+(* sessions far into their life: whatever the receive counter (below 2^32 - 1), a message under the right key is
+   opened exactly when its IV counter is the receive counter + 1 — no message "comes round again" modulo 2^8, 2^16
+   or 2^24 (the decision `c06.far` of the correspondence run, against the specification `c06.spec_far`) *)
+Theorem C06_far_counter_exact :
+  forall r ctr crafted, ctr + 1 < two32 -> crafted < two32 ->
+    (bytes_eqb (snd (next_iv r ctr)) (iv r crafted) = true <-> crafted = ctr + 1).
+Proof. exact far_accept_iff. Qed.
+Print Assumptions C06_far_counter_exact.
+
+Example C06_far_ex : bytes_eqb (snd (next_iv Reader 65536)) (iv Reader 1) = false /\ bytes_eqb (snd (next_iv Device 16777215)) (iv Device 16777216) = true.
+Proof. vm_compute. split; reflexivity. Qed.
